@@ -1286,7 +1286,8 @@ fn c19(args: Args) {
          every RDATA carries the generation number, names exist only in their generation, and an alias in one file points at a \
          name that exists only in the same generation of another file, so a mixed read shows inside a single answer. Steps: \
          rewrite all files for the next generation (temp + rename, only while no reload runs), or additionally break the \
-         configuration (syntactically bad file in the directory, dangling symlink, explicitly listed file removed), then 1..3 \
+         configuration (syntactically bad zone or hosts file in a directory, bad explicitly listed hosts file, dangling symlink, explicitly \
+         listed file removed, -Z or -A directory missing; each kind once per shuffled deck of 14 steps), then 1..3 \
          SIGUSR1 in a burst; every eighth step instead edits, signals, waits for 'received', edits again (one of the two versions \
          without the 30,000 bulk records, so the two loads differ greatly in length) and signals again; 8 client threads query seven probes throughout over UDP and TCP, logging send and receive times; \
          the server's own 'received' / 'done - success|failure' lines are time-stamped on arrival. Oracle: every answer equals \
@@ -1414,6 +1415,7 @@ fn c19(args: Args) {
     let mut reload_records: Vec<Value> = Vec::new();
     let mut has_extra = false;
     let mut broken: Option<&'static str> = None;
+    let mut deck: Vec<&'static str> = Vec::new();
     let wait_done = |server: &Server, from_line: usize, want: usize, timeout: Duration| -> Vec<(Instant, bool)> {
         // collect `want` "done" lines that appear after line index `from_line`
         let t0 = Instant::now();
@@ -1494,21 +1496,39 @@ fn c19(args: Args) {
             continue;
         }
         // 1. edit (no reload is in progress now)
-        let action = match (broken, rng.below(10)) {
-            (Some(_), _) => "repair-and-advance",
-            (None, 0) => "bad-file-in-directory",
-            (None, 1) => "dangling-symlink-in-directory",
-            (None, 2) => "explicit-file-removed",
-            (None, 3) => "no-change",
-            (None, 4) => "toggle-directory-file",
-            _ => "advance",
+        // every kind of step comes up once per shuffled deck, so a short run still meets each fault
+        if deck.is_empty() {
+            deck = vec![
+                "bad-file-in-directory",
+                "dangling-symlink-in-directory",
+                "explicit-file-removed",
+                "bad-hosts-file-in-directory",
+                "bad-explicit-hosts-file",
+                "zones-directory-missing",
+                "hosts-directory-missing",
+                "no-change",
+                "toggle-directory-file",
+                "toggle-directory-file",
+                "advance",
+                "advance",
+                "advance",
+                "advance",
+            ];
+            rng.shuffle(&mut deck);
+        }
+        let action = match broken {
+            Some(_) => "repair-and-advance",
+            None => deck.pop().unwrap(),
         };
         let next_g = g + 1;
         let mut expect_success = true;
         match action {
             "advance" | "repair-and-advance" => {
+                let _ = std::fs::rename(dir.join("zones.d.away"), dir.join("zones.d"));
+                let _ = std::fs::rename(dir.join("hosts.d.away"), dir.join("hosts.d"));
                 let _ = std::fs::remove_file(dir.join("zones.d/zz-broken.zone"));
                 let _ = std::fs::remove_file(dir.join("hosts.d/zz-dangling"));
+                let _ = std::fs::remove_file(dir.join("hosts.d/zz-broken"));
                 broken = None;
                 write_generation(&dir, next_g, has_extra, &bulk);
             }
@@ -1532,6 +1552,30 @@ fn c19(args: Args) {
                 write_generation(&dir, next_g, has_extra, &bulk);
                 let _ = std::fs::remove_file(dir.join("a.test.zone"));
                 broken = Some("explicit-file-removed");
+                expect_success = false;
+            }
+            "bad-hosts-file-in-directory" => {
+                write_generation(&dir, next_g, has_extra, &bulk);
+                write_atomic(&dir.join("hosts.d/zz-broken"), "not-an-address some.host.test\n");
+                broken = Some("bad-hosts-file");
+                expect_success = false;
+            }
+            "bad-explicit-hosts-file" => {
+                write_generation(&dir, next_g, has_extra, &bulk);
+                write_atomic(&dir.join("hosts"), &format!("{} host.hosts.test\n10.1.2 short.address.test\n", ip_of(next_g, 3)));
+                broken = Some("bad-explicit-hosts-file");
+                expect_success = false;
+            }
+            "zones-directory-missing" => {
+                write_generation(&dir, next_g, has_extra, &bulk);
+                let _ = std::fs::rename(dir.join("zones.d"), dir.join("zones.d.away"));
+                broken = Some("zones-directory-missing");
+                expect_success = false;
+            }
+            "hosts-directory-missing" => {
+                write_generation(&dir, next_g, has_extra, &bulk);
+                let _ = std::fs::rename(dir.join("hosts.d"), dir.join("hosts.d.away"));
+                broken = Some("hosts-directory-missing");
                 expect_success = false;
             }
             _ => {}
